@@ -319,6 +319,18 @@ class Run(object):
                     self.sim.event("650 HS_DESC FAILED %s UNKNOWN %s REASON=UPLOAD_REJECTED\r\n" % (other, d2))
                 else:
                     self.sim.event("650 HS_DESC UPLOADED %s UNKNOWN %s\r\n" % (other, d2))
+            elif a == "Relisten":
+                # listen() again on the same endpoint object; observation starts afresh for this call
+                self.fired, self.asked_before = [], list(self.asked)
+                if self.fault == "reject":
+                    self.fault, self.asked = "none", []
+                self.hold_unsub = False
+                while self.sim.held:
+                    self.sim.release()          # (Tor has long answered what the earlier attempt left outstanding)
+                self.nlog = len(self.sim.log)
+                d = self.listen_d = self.ep.listen(Factory.forProtocol(Protocol))
+                d.addBoth(self.fired.append)
+                self.sim.pump()
             elif a == "Cancel":
                 self.listen_d.cancel()
                 self.sim.pump()
@@ -416,14 +428,20 @@ SCRIPTS = {
     "disconnect_wait": ["Listen", "ConfigReady", "CreateReply", "Disconnect"],
     "disconnect_unsub": ["Listen", "ConfigReady", "CreateReply", "WaitOver", "Disconnect"],
     "cancel_wait": ["Listen", "ConfigReady", "CreateReply", "Cancel", "UnsubAck"],
+    # listen() again on the same endpoint: a retry after Tor refused the service; a restart after the port was stopped
+    "reject_retry": ["Listen", "ConfigReady", "CreateReply", "Relisten", "CreateReply", "WaitOver", "UnsubAck", "StopListening"],
+    "none_relisten": ["Listen", "ConfigReady", "CreateReply", "WaitOver", "UnsubAck", "StopListening", "Relisten", "StopListening"],
     "invalid": ["Refuse"],
 }
+
+
+MODEL_FAULT = {"reject_retry": "reject", "none_relisten": "none"}       # script name -> the fault the model starts with
 
 
 def replay(cfg, fault, noise="", others=False):
     """noise: "" | "up" | "fail": descriptor events of another service arrive while the creation command is
     outstanding and again during the descriptor wait"""
-    run = Run(cfg, fault, others)
+    run = Run(cfg, MODEL_FAULT.get(fault, fault), others)
     steps = []
     script = [dict(a=a) for a in script_for(cfg, fault, others)]
     if noise:
@@ -440,7 +458,7 @@ def replay(cfg, fault, noise="", others=False):
         if run.exc:
             break
     run.close()
-    return dict(steps=steps, cfg=cfg, fault=fault, noise=noise, others=bool(others), cfgnow=cfg.startswith("tor_"), public=run.public, hostname=SID + ".onion", errors=run.errors[:2])
+    return dict(steps=steps, cfg=cfg, fault=MODEL_FAULT.get(fault, fault), script=fault, noise=noise, others=bool(others), cfgnow=cfg.startswith("tor_"), public=run.public, hostname=SID + ".onion", errors=run.errors[:2])
 
 
 class _Sink(object):
